@@ -147,7 +147,7 @@ func (w *c47World) genStep(m2 *c47Model, si int) (ops []c47Op, desc string) {
 	}
 	oldRound := m2.round
 	k := rapid.IntRange(0, 3).Draw(rt, L("adv"))
-	if rapid.IntRange(0, 19).Draw(rt, L("jump")) == 0 {
+	if rapid.IntRange(0, 11).Draw(rt, L("jump")) == 0 {
 		k = rapid.IntRange(100, 300).Draw(rt, L("jumpk")) // cross the 0xff round boundary
 	}
 	newRound := oldRound + basics.Round(k)
@@ -398,44 +398,33 @@ func (w *c47World) genStep(m2 *c47Model, si int) (ops []c47Op, desc string) {
 		var pruneOp *c47Op
 		if rapid.IntRange(0, 2).Draw(rt, L("prune")) == 0 && oldRound >= m2.onlineFB {
 			fb := basics.Round(rapid.Uint64Range(uint64(m2.onlineFB), uint64(oldRound)).Draw(rt, L("fb")))
-			ok := true
-			if w.div.onlineDeleteInclusive {
-				// known divergence kv-onlinedelete-inclusive: exclude horizons that coincide with a stored update round
-				coll := func(fb basics.Round) bool {
-					for _, list := range m2.online {
-						for _, e := range list {
-							if e.upd == uint64(fb) {
-								return true
-							}
+			if rapid.Bool().Draw(rt, L("fbhit")) {
+				// aim at a horizon equal to a stored update round (regression of kv-onlinedelete-inclusive)
+				var hits []uint64
+				for _, list := range m2.online {
+					for _, e := range list {
+						if e.upd >= uint64(m2.onlineFB) && e.upd <= uint64(oldRound) {
+							hits = append(hits, e.upd)
 						}
 					}
-					return false
 				}
-				moved := false
-				for coll(fb) && fb > m2.onlineFB {
-					fb--
-					moved = true
-				}
-				if coll(fb) {
-					w.vk.Excluded("kv-onlinedelete-inclusive: forgetBefore equal to a stored updround (prune skipped)")
-					ok = false
-				} else if moved {
-					w.vk.Excluded("kv-onlinedelete-inclusive: forgetBefore equal to a stored updround (moved down)")
+				sort.Slice(hits, func(i, j int) bool { return hits[i] < hits[j] })
+				if len(hits) > 0 {
+					fb = basics.Round(c47PickFrom(rt, L("fbh"), hits))
+					w.vk.Label("OnlineAccountsDelete horizon equal to a stored updround")
 				}
 			}
-			if ok {
-				m2.onlineFB = fb
-				m2.onlineDelete(fb)
-				for r := range m2.params {
-					if r < fb {
-						delete(m2.params, r)
-					}
+			m2.onlineFB = fb
+			m2.onlineDelete(fb)
+			for r := range m2.params {
+				if r < fb {
+					delete(m2.params, r)
 				}
-				add(fmt.Sprintf("OnlineAccountsDelete %d", fb), "online", func(b int, wr *c47Writers) error { return wr.ax.OnlineAccountsDelete(fb) })
-				pruneOp = &c47Op{name: fmt.Sprintf("AccountsPruneOnlineRoundParams %d", fb), table: "ext", run: func(b int, wr *c47Writers) error {
-					return wr.ax.AccountsPruneOnlineRoundParams(fb)
-				}}
 			}
+			add(fmt.Sprintf("OnlineAccountsDelete %d", fb), "online", func(b int, wr *c47Writers) error { return wr.ax.OnlineAccountsDelete(fb) })
+			pruneOp = &c47Op{name: fmt.Sprintf("AccountsPruneOnlineRoundParams %d", fb), table: "ext", run: func(b int, wr *c47Writers) error {
+				return wr.ax.AccountsPruneOnlineRoundParams(fb)
+			}}
 		}
 		np := k
 		var plist []ledgercore.OnlineRoundParamsData
